@@ -243,6 +243,23 @@ static void c12Field(W& w, const tbl::Cls<T>& c, size_t fi, bool single = false,
             }
             w.add(mc::C_TRANS, 1);
         }
+        // (a') API write into objects in zero / ones / counting states -> hand-laid-out image (stale bits must not survive)
+        for (int bg = 1; bg < 4; ++bg)
+        {
+            Bytes img = bgImage(c.hdrSize, bg);
+            T t = c.fromRaw(img);
+            Bytes before = c.raw(t);
+            f.set(t, v);
+            Bytes r = c.raw(t);
+            Bytes e = before;
+            if ((size_t) (f.off + f.width) <= e.size())
+                putField(e, f.off, f.width, f.shift, f.bits, v);
+            if (r != e)
+                w.fail("layout:api-write-differs-from-wire-image:" + c.name + "::" + f.name,
+                       ofmt("set%s(0x%llx) on an object built from image %s: raw bytes %s, the layout prescribes %s", f.name.c_str(), (unsigned long long) v, mc::hex(before).c_str(),
+                            mc::hex(r).c_str(), mc::hex(e).c_str()));
+            w.add(mc::C_TRANS, 1);
+        }
         // (b) hand-laid-out image -> getter
         for (int bg = 1; bg < 4; ++bg)
             for (int extra : extras)
